@@ -366,10 +366,14 @@ class _rewrite_captured_vars(ast.NodeTransformer):
         return node
 
     def visit_Lambda(self, node: ast.Lambda) -> Any:
-        self._ignore_stack.append([a.arg for a in node.args.args])
-        v = super().generic_visit(node)
+        # Default values are evaluated outside the lambda. Every kind of parameter
+        # (positional-only, keyword-only, `*args`, `**kwargs`) hides a captured variable.
+        node.args.defaults = [self.visit(d) for d in node.args.defaults]
+        node.args.kw_defaults = [None if d is None else self.visit(d) for d in node.args.kw_defaults]
+        self._ignore_stack.append(_lambda_binder_names(node.args))
+        node.body = self.visit(node.body)
         self._ignore_stack.pop()
-        return v
+        return node
 
     def _visit_comprehension(self, node: Any) -> Any:
         """The loop variables of a comprehension are bound inside it - like lambda
